@@ -171,7 +171,7 @@ class Program:
                             add(x)
         return out
 
-    def method(self, cls, name, argtypes, ctor=None):
+    def method(self, cls, name, argtypes, ctor=None, ctor_struct=None):
         owner, fn = self.find_method(cls, name)
         key = (owner, name, tuple(argtypes))
         if key in self.done:
@@ -186,7 +186,7 @@ class Program:
         self.names[lean] = key
         self.stack.append((owner, name))
         try:
-            tr = MTr(self, cls, owner, fn, list(argtypes), lean, ctor=ctor)
+            tr = MTr(self, cls, owner, fn, list(argtypes), lean, ctor=ctor, ctor_struct=ctor_struct)
             info = tr.translate()
         finally:
             self.stack.pop()
@@ -232,9 +232,10 @@ def falls_through(stmts):
 
 
 class MTr(BTr):
-    def __init__(self, prog, cls, owner, fn, argtypes, lean, ctor=None):
+    def __init__(self, prog, cls, owner, fn, argtypes, lean, ctor=None, ctor_struct=None):
         super().__init__([])
         self.prog, self.cls, self.owner, self.fn, self.lean, self.ctor = prog, cls, owner, fn, lean, ctor
+        self.ctor_struct = ctor_struct
         self.decl = prog.classes[cls]
         a = fn.args
         if a.vararg or a.kwarg or a.kwonlyargs or a.posonlyargs or not a.args or a.args[0].arg != 'self':
@@ -885,7 +886,7 @@ class MTr(BTr):
                 raise Untranslatable(f'{self.fn.name}: no path returns a value')
             rt = self.prog.lean_ty(self.ret_type)
         elif self.ctor is not None:
-            rt = self.decl['lean']
+            rt = self.ctor_struct or self.decl['lean']
         else:
             rt = ' × '.join(tpar(self.prog.lean_ty(self.attr_type(m))) for m in self.mutated) if self.mutated else 'Unit'
         sig = ([('H', 'H', 'H', None)] if self.uses_H else []) + self.sig
